@@ -443,6 +443,19 @@ def x_run(ctx, case):
         mod.load_tests = lambda loader, tests, pattern: build(tree, cls, runlog)
         names = []
     sys.modules[modname] = mod
+    # the module handed over as an object, by name, or by a dotted name (imported, then walked attribute by attribute)
+    mod_arg, pkgname = mod, None
+    if case.get("module_as") == "name":
+        mod_arg = modname
+    elif case.get("module_as") == "dotted":
+        pkgname = "tvm_c19_pkg_%d" % next(_mod_counter)
+        pkg = types.ModuleType(pkgname)
+        pkg.__path__ = []
+        inner = types.ModuleType(pkgname + ".inner")
+        inner.__path__ = []
+        pkg.inner, inner.leaf = inner, mod
+        sys.modules[pkgname], sys.modules[pkgname + ".inner"], sys.modules[pkgname + ".inner.leaf"] = pkg, inner, mod
+        mod_arg = pkgname + ".inner.leaf"
     runner_kw = {}
     if case.get("bare_runner"):
         import testtools
@@ -496,7 +509,7 @@ def x_run(ctx, case):
                     return "".join(self.parts)
             out = ListWriter()
         try:
-            TestProgram(module=mod, argv=["prog", "--list"] + names, stdout=out, exit=False, **runner_kw)
+            TestProgram(module=mod_arg, argv=["prog", "--list"] + names, stdout=out, exit=False, **runner_kw)
         except (SystemExit, Exception) as e:  # noqa - in-domain arguments: that is the violation
             ctx.check(False, "run.list-prints-exactly-the-ids", {"TestProgram raised": repr(e), "argv": ["--list"] + names})
             return True
@@ -514,7 +527,7 @@ def x_run(ctx, case):
         del runlog[:]
         out = io.StringIO()
         try:
-            TestProgram(module=mod, argv=["prog", "--load-list", path] + names, stdout=out, exit=False, **runner_kw)
+            TestProgram(module=mod_arg, argv=["prog", "--load-list", path] + names, stdout=out, exit=False, **runner_kw)
         except Exception as e:  # noqa - in-domain arguments: that is the violation
             ctx.check(False, "run.load-list-runs-exactly-the-listed", {"TestProgram raised": repr(e), "keep": keep})
             return True
@@ -528,7 +541,7 @@ def x_run(ctx, case):
         del runlog[:]
         out = io.StringIO()
         try:
-            TestProgram(module=mod, argv=["prog", "--list", "--load-list", path] + names, stdout=out, exit=False,
+            TestProgram(module=mod_arg, argv=["prog", "--list", "--load-list", path] + names, stdout=out, exit=False,
                         **runner_kw)
         except (SystemExit, Exception) as e:  # noqa
             ctx.check(False, "run.list-prints-exactly-the-ids", {"TestProgram raised": repr(e), "with": "--load-list"})
@@ -539,6 +552,9 @@ def x_run(ctx, case):
     finally:
         shutil.rmtree(d, ignore_errors=True)
         sys.modules.pop(modname, None)
+        if pkgname:
+            for k in (pkgname, pkgname + ".inner", pkgname + ".inner.leaf"):
+                sys.modules.pop(k, None)
     return len(L) >= 2
 
 
@@ -752,7 +768,8 @@ def run(ctx):
         rng.shuffle(keep)
         ctx.execute("run", {"tree": tree, "keep": keep, "style": rng.randrange(6),
                             "after_failed_import": rng.random() < 0.3, "via_load_tests": rng.random() < 0.4,
-                            "bare_runner": rng.random() < 0.3, "falsy_stdout": rng.random() < 0.3})
+                            "bare_runner": rng.random() < 0.3, "falsy_stdout": rng.random() < 0.3,
+                            "module_as": rng.choice([None, None, "name", "dotted"])})
     for how in ("shared", "wrapping"):
         for k in (1, 2, 3, 6, 12):
             ctx.execute("iter_special", {"how": how, "n": k})
@@ -764,6 +781,8 @@ def run(ctx):
                 tree = [top, [["leaf", "a"], ["plain", [["leaf", "b"]]], ["leaf", "c"]]]
                 ctx.execute("run", {"tree": tree, "keep": keep, "style": 0, "via_load_tests": via,
                                     "bare_runner": bool(len(keep) % 2)})
+                ctx.execute("run", {"tree": tree, "keep": keep, "style": 0, "via_load_tests": via,
+                                    "module_as": "dotted" if len(keep) % 2 else "name"})
     for i in range(ctx.scale(3, 32)):
         ids = fresh_ids(rng)
         tree = ["plain", [["leaf", next(ids)], ["custom", [["leaf", next(ids)], ["leaf", next(ids)]]],
